@@ -11,7 +11,12 @@
       dex/pair/src/lib.rs                (init as run by deploy_from_source, setLpTokenIdentifier)
     Every pair contract of the world is a [Model.Pair.pair]; a hop of multiPairSwap is
     [Pair.ep_swap_in] / [Pair.ep_swap_out] on that pair's state, the router being the intermediate
-    holder of the tokens.  No proofs in this file. *)
+    holder of the tokens.  No proofs in this file.
+    Not modelled: the router's own #[upgrade] (sets state to false; the executor has no upgrade call),
+    setTemporaryOwnerPeriod / setPairTemplateAddress / clearPairTemporaryOwnerStorage (the period stays
+    at its init value, the template is set at init), and what happens after the synchronous part of
+    issueLpToken, setLocalRoles and upgradePair (calls to the ESDT system contract / code upgrade):
+    those endpoints are modelled up to their guards. *)
 From MX Require Import Base.Prelude Gen.Params Model.Pair.
 
 (** Account ids: 0 = the router contract; [Pair.OWNER] (100) = router owner (deployer); 1.. = users;
